@@ -50,6 +50,10 @@ func init() {
 			{ID: "R19v", Floor: 1, Doc: "car inspect reports what the library's inspection reports: InspectCar calls lib.InspectCar and no other checker of cmd/car/lib", Run: ruleR19v},
 			{ID: "R19w", Floor: 1, Doc: "`car filter --append` resumes an output with every block it holds indexed (= R12c)", Run: ruleR12c},
 			{ID: "R19x", Floor: 7, Doc: "a header re-encodes to its source bytes: car index and car concat position by HeaderSize (= R01c)", Run: ruleR01c},
+			{ID: "R19y", Floor: 1, Doc: "car inspect --full accepts the CIDv0 archives the other commands write (= R02s)", Run: ruleR02s},
+			{ID: "R19z", Floor: 1, Doc: "the commands size their inputs with os.Stat, which follows links like the reads do: no os.Lstat in cmd/car", Run: ruleR19z},
+			{ID: "R19A", Floor: 1, Doc: "detach-index, get-block and verify find the index where the header says, index padding included (= R10d)", Run: ruleR10d},
+			{ID: "R19B", Floor: 1, Doc: "car filter writes the roots that survive as a list, also when none does (= R05x)", Run: ruleR05x},
 		},
 	})
 }
@@ -644,7 +648,11 @@ func ruleR19e(c *Ctx, r *Report) {
 						v = args[i]
 						return
 					}
-					if fvv, base := fieldOfLoad(sv); fvv != nil && base != nil {
+					if src := setOnceSource(sv); src != nil {
+						v = src // a field of a new options struct, filled in once by the caller
+						return
+					}
+					if fvv, base := fieldOfLoadRaw(sv); fvv != nil && base != nil {
 						// base: the spill cell of a struct parameter
 						var pv ssa.Value = base
 						if al, ok := base.(*ssa.Alloc); ok {
